@@ -97,6 +97,9 @@ add("F15", "C11", "fixed", "@oneOf member named `Self` was serialised as `Self_`
 add("F12", "C16", "fixed", "an absent nullable ID key failed with `missing field` (deserialize_with disables serde's implicit Option default)",
     commit="b88631d", document="query Q { me { id best { id } } node { __typename id } }\n",
     vectors={"C16": [resp("w1", "Q", {"me": {"id": 5}, "node": None}, {"me": {"id": "5"}})]})
+
+add("F8", "C12", "fixed", "mutually recursive fragments (A -> B -> A, 3-cycles) were emitted without indirection: rustc E0072",
+    commit="fad7108", engine="B-generated")
 out = os.path.join(os.path.dirname(os.path.dirname(os.path.abspath(__file__))), "known_findings.json")
 with open(out, "w") as f:
     json.dump({"comment": "written by tools/mk_known.py at authoring time; never written by a check", "findings": F}, f, indent=1)
